@@ -72,12 +72,12 @@ Definition sec_add (trim nodup ci : bool) (acc : list bytes) (raw : bytes) : lis
 Fixpoint split_go (delims : bytes) (trim nodup ci : bool) (max : nat) (l cur : bytes) (acc : list bytes)
   : list bytes :=
   match l with
-  | [] => sec_add trim nodup ci acc (rev cur)
+  | [] => sec_add trim nodup ci acc (frev cur)
   | c :: r =>
     if negb (max =? 0)%nat && (max - 1 <=? length acc)%nat then
       split_go delims trim nodup ci max r (c :: cur) acc
     else if mem c delims then
-      split_go delims trim nodup ci max r [] (sec_add trim nodup ci acc (rev cur))
+      split_go delims trim nodup ci max r [] (sec_add trim nodup ci acc (frev cur))
     else split_go delims trim nodup ci max r (c :: cur) acc
   end.
 
